@@ -19,6 +19,7 @@
         point-in-polygon question about a box corner with this element's ring offsets.
  C01.i  orientation decision table: with the sign function abstracted, segments_intersect combines the four orientation signs as
         (b0*b1 <= 0) and (a0*a1 <= 0) on all 49 sign combinations with at most one zero (plus the all-collinear case).
+ C01.j  at least three distinct, real box edges are tested against every segment (two are not enough).
 Does not decide: the cross-product arithmetic inside the orientation test, the geometric lemma itself, the winding number, exact arithmetic.
 """
 import ast
@@ -51,6 +52,7 @@ def run(P, R, tier):
     reject_and_shortcut(P, R)
     fallback(P, R)
     orientation_table(P, R)
+    box_edges(P, R)
 
 
 # ------------------------------------------------------------------------------------------------------------------ C01.a / C01.c / C01.d
@@ -494,6 +496,36 @@ def reject_and_shortcut(P, R):
                         R.check(not bad, 'C01.f', f, s.test, 'per-segment reject is sound (segment bbox disjoint from the closed box)',
                                 f'per-segment reject `{norm(s.test)}` skips segments whose bbox touches the closed box on {len(bad)} orderings, e.g. {bad[:2]}: '
                                 f'a segment lying on a box edge line is lost', counterexamples=bad[:5])
+
+
+# ------------------------------------------------------------------------------------------------------------------ C01.j
+def box_edges(P, R):
+    """A segment without an end point in the closed box that meets the box crosses its boundary on two different edges (or touches one):
+    testing any three of the four edges is sufficient, testing only two is not (the segment through the other two is missed).  Each tested
+    edge must be a real edge: two corners sharing exactly one coordinate."""
+    si = P.func(IX, 'segments_intersect')
+    for name in PER_ELEMENT:
+        f = P.func(IX, name)
+        bn = f.params[1:5]
+        xs, ys = {bn[0], bn[2]}, {bn[1], bn[3]}
+        edges = set()
+        ncalls = 0
+        for c in ast.walk(f.node):
+            if isinstance(c, ast.Call) and astq.is_call_to(P, f, c, si) and len(c.args) == 8:
+                ncalls += 1
+                a = [norm(x) for x in c.args[4:8]]
+                ok = a[0] in xs and a[2] in xs and a[1] in ys and a[3] in ys
+                real = ok and ((a[0] == a[2]) != (a[1] == a[3]))
+                R.check(real, 'C01.j', f, c, 'the second segment is an edge of the box (two corners sharing exactly one coordinate)',
+                        f'`{", ".join(a)}` is not an edge of the box (diagonal, single corner, or not box corners)')
+                if real:
+                    edges.add(frozenset([(a[0], a[1]), (a[2], a[3])]))
+        if ncalls == 0:
+            R.abstain('C01.j', f, None, 'no segments_intersect calls found in the per-element routine')
+            continue
+        R.check(len(edges) >= 3, 'C01.j', f, None, f'{name} tests {len(edges)} distinct box edges (three suffice)',
+                f'{name} tests only {len(edges)} distinct box edge(s): a segment crossing the box through the untested edges, with both end points outside, is missed',
+                construct=f'{name}: distinct box edges tested')
 
 
 # ------------------------------------------------------------------------------------------------------------------ C01.i
